@@ -43,6 +43,10 @@ pub fn adversarial_alphabet(lang: &str) -> Vec<&'static str> {
         // a character the language's compositions delete
         a.push("\u{ad}");
     }
+    if lang == "de" || lang == "xd" {
+        // the capital form of the expanding letter (its own table entry; its std upper-casing is not this character)
+        a.push("ẞ");
+    }
     a
 }
 
